@@ -70,7 +70,7 @@ def run(tier, seed):
         st["srv"]["activations"] = 1
         plans.append(st)
         trace, blobs, decoded, dec = conn.run_plans(wd, plans, "c03")
-        accepted, rejects = core.tv_all("Trace_Rdp", trace, decoded, wd, shards=8, max_rejects=6)
+        accepted, rejects = core.tv_all("Trace_Rdp", trace, decoded, wd, shards=8, max_rejects=6, overrides=True)
         for r in rejects:
             key, text = conn.classify_reject(r, dec)
             run_id = json.loads(r["run_events"][0]).get("run")
@@ -81,8 +81,8 @@ def run(tier, seed):
         sl = [lines[s:e] for (s, e) in runs if json.loads(lines[s]).get("run") == "selftest"]
         sp = os.path.join(wd, "self.ndjson")
         open(sp, "w").write("\n".join(sl[0]) + "\n")
-        if core.tv_once("Trace_Rdp", sp, decoded, wd) is None:
-            tested = selftest.run("Trace_Rdp", sl[0], decoded, wd, corruptions())
+        if core.tv_once("Trace_Rdp", sp, decoded, wd, overrides=True) is None:
+            tested = selftest.run("Trace_Rdp", sl[0], decoded, wd, corruptions(), overrides=True)
         connected = sum(1 for l in lines if '"api":"connect"' in l and '"res":"ok"' in l)
         cov = {"states": mc.distinct, "transitions": mc.generated, "traces_validated_against_impl": accepted,
                "samples": [{"plan": plans[1], "first_events": [json.loads(x) for x in lines[runs[1][0] + 1:runs[1][0] + 5]]}],
